@@ -70,3 +70,12 @@ spec fn mpre(k: int) -> int {
     if k <= 0 { 0 } else if k == 1 { 31 } else if k == 2 { 61 } else if k == 3 { 92 } else if k == 4 { 122 } else if k == 5 { 153 }
     else if k == 6 { 184 } else if k == 7 { 214 } else if k == 8 { 245 } else if k == 9 { 275 } else if k == 10 { 306 } else if k == 11 { 337 } else { 366 }
 }
+
+// truncating (Rust) division on mathematical integers, d > 0
+spec fn tdiv(x: int, d: int) -> int {
+    if x >= 0 { x / d } else { -((-x) / d) }
+}
+
+spec fn imin(a: int, b: int) -> int {
+    if a <= b { a } else { b }
+}
